@@ -19,6 +19,29 @@
                                  every stream with labels on and a non-empty final fragment violates
                                  it, in exactly one way: bare label, then the data;
     * `line_records_atomic`      holds for both forms: all LINE records are whole and come first.
+
+  CLAUSE OF THE STATEMENT                                   THEOREM
+  each line = one contiguous record `label: line`           line_records_atomic, records_atomic_partial (+ _index)
+  (just the line with -N)                                   same theorems with `cfg.labels = false` (`pfx = []`)
+  final fragment after all lines, label + bytes one record  records_atomic_partial (`Spec.tailOk`), tail_split_is_the_defect (D6)
+  "(the whole fragment when it is shorter than 8 KiB)"      final_fragment_cut_exactly, final_fragment_whole_iff: ONE call iff
+                                                              length <= RELAY_TAILBUF-1 (regenerated; `tail_piece_covers_8KiB`: >= 8192);
+                                                              longer: labelled piece of T-1 bytes, then unlabelled T-1-byte pieces
+  no byte of one host's record inside another's,            records_atomic_any_schedule, records_atomic_index_any_schedule
+    records of one host keep their order                      (LogOk: the global call sequence restricted to a stream is its own)
+  label = the host's own name, shortened only if ...        label_correct, domain_flag_correct, records_carry_own_label,
+                                                              records_own_label_any_schedule (target list, -N and -K, any schedule)
+  `_flush_output` hands `_flush_lines` the global `t`       flush_lines_in_flush_output_noop
+  from stdio calls to the bytes a consumer reads            consumer_sees_calls (one FILE), records_reach_consumer_any_schedule
+                                                              (any number of workers, both FILEs, any buffering/flush schedule;
+                                                              2>&1: per FILE only -- Stdio.shared_descriptor_witness)
+  a forked transport child must not re-send the buffer      forked_child_exit_reemits_witness (seeded C06-5)
+
+  NOT PROVED: that glibc's fputs is atomic per call w.r.t. other threads (POSIX stdio locking) and buffers like
+  the writer of Relay/Stdio.lean -- the two assumptions, made explicit there as an interleaving semantics; labels of
+  LINEBUFSIZE bytes or more (`_verr` truncates: outside the domain, `NameOk`); dsh()'s domain loop is modelled
+  (`domainLoop`) and proved equal to the property's `spansDomains`, its correspondence with the real dsh() is by the
+  pinned real runs (the in-process harness replicates the 8-line loop).
 -/
 import PdshVerif.Relay.TailLemmas
 import PdshVerif.Relay.LabelLemmas
@@ -48,12 +71,20 @@ theorem domain_flag_correct (targets : List Bytes) (ht : ∀ t ∈ targets, ∀ 
     domainLoop targets none = Spec.spansDomains targets :=
   domainLoop_eq_spans targets ht
 
+/-- THE PIECE SIZE OF THE FINAL FLUSH COVERS THE PROPERTY'S 8 KiB.  `RELAY_TAILBUF` - 1 = the number of bytes the
+    first stdio call of `_flush_output` carries at most, learnt on every run from what the code under test does
+    with a rest that fills the buffer.  The lemmas of Relay/TailLemmas.lean hold for EVERY piece size and take this
+    inequality as a hypothesis; it is discharged here for the regenerated value.  A larger piece size -- up to
+    "the whole rest in one call" -- keeps it true; a smaller one (seeded C06-7 and C06-10: 2048) makes it false, and
+    then fragments of 2048..8191 bytes do come out in several calls on the real code. -/
+theorem tail_piece_covers_8KiB : Spec.wholeTailBelow ≤ Gen.RELAY_TAILBUF := by decide
+
 /-- `emission_is_record` for lines, BOTH forms of the code: the first `#lines` stdio calls are
     exactly the records `prefix ++ line`, one whole record per call, in order -- for every
     chunking -- and whatever follows them (the tail calls) comes after ALL line records
     (`tail_last`). -/
 theorem line_records_atomic (cfg : Cfg) (host t0host : Bytes) (strm : Nat) (readRc : Bool)
-    {sizeMeta : Nat} (hm1 : 1 ≤ sizeMeta) (hm2 : sizeMeta ≤ 800) {b0 : PBuf}
+    {sizeMeta : Nat} (hg : growthOk sizeMeta = true) {b0 : PBuf}
     (hb0 : mkFifoBuf sizeMeta = some b0) (script : List Bytes)
     (hdom : Spec.Dom05 (markerOf readRc) script.flatten = true) :
     ((runStream fifoOps cfg host t0host strm readRc b0 script).ems.map Em.bytes).take
@@ -63,7 +94,7 @@ theorem line_records_atomic (cfg : Cfg) (host t0host : Bytes) (strm : Nat) (read
         (Spec.lines script.flatten).length =
       (tailEms cfg host strm ((Spec.tail script.flatten).length + 1) (Spec.tail script.flatten) false).map
         Em.bytes := by
-  obtain ⟨h1, _⟩ := runStream_closed cfg host strm readRc t0host hm1 hm2 hb0 script hdom
+  obtain ⟨h1, _⟩ := runStream_closed cfg host strm readRc t0host hg hb0 script hdom
   rw [h1, List.map_append, List.map_map]
   have hlen : ((Spec.lines script.flatten).map
       (Em.bytes ∘ fun l => (⟨strm, labelPrefix cfg.labels cfg.keep host ++ l⟩ : Em))).length =
@@ -79,34 +110,84 @@ theorem line_records_atomic (cfg : Cfg) (host t0host : Bytes) (strm : Nat) (read
     for a fragment of 8 KiB or more) -- i.e. the specification's verdict `c06Ok` holds, for
     every stream in the domain and every chunking. -/
 theorem records_atomic_partial (cfg : Cfg) (hfix : cfg.tailSplit = false) (host t0host : Bytes) (strm : Nat)
-    (readRc : Bool) {sizeMeta : Nat} (hm1 : 1 ≤ sizeMeta) (hm2 : sizeMeta ≤ 800) {b0 : PBuf}
+    (readRc : Bool) {sizeMeta : Nat} (hg : growthOk sizeMeta = true) {b0 : PBuf}
     (hb0 : mkFifoBuf sizeMeta = some b0) (script : List Bytes)
     (hdom : Spec.Dom05 (markerOf readRc) script.flatten = true) :
     Spec.c06Ok (pfx cfg host) script.flatten
       ((runStream fifoOps cfg host t0host strm readRc b0 script).ems.map Em.bytes) = true := by
-  obtain ⟨h1, h2⟩ := line_records_atomic cfg host t0host strm readRc hm1 hm2 hb0 script hdom
+  obtain ⟨h1, h2⟩ := line_records_atomic cfg host t0host strm readRc hg hb0 script hdom
   have h0 : ∀ b ∈ Spec.tail script.flatten, b ≠ 0 := fun b hb => dom_noNul hdom b (mem_of_mem_rest hb)
-  have ht := tailEms_ok cfg host strm hfix _ (Spec.tail script.flatten) (Nat.lt_succ_self _) h0
+  have ht := tailEms_ok cfg host strm tail_piece_covers_8KiB hfix _ (Spec.tail script.flatten) (Nat.lt_succ_self _) h0
   unfold Spec.c06Ok
   simp only [h1, h2, beq_self_eq_true, Bool.true_and]
   exact ht
+
+/-- THE 8 KiB CLAUSE, EXACTLY.  The property promises "the whole fragment when it is shorter than 8 KiB".
+    What the code does with a final fragment `t` of ANY length (stream in the domain, every chunking,
+    repaired tail form): after the line records, the first stdio call carries the label and the first
+    T-1 bytes of `t`, each further call the next T-1 bytes WITHOUT a label, the last one the remainder,
+    where T = RELAY_TAILBUF is `sizeof buf` in `_flush_output`, regenerated from dsh.c on every run
+    (`tail_piece_covers_8KiB`: T >= 8192 is all the proofs use).  So ... -/
+theorem final_fragment_cut_exactly (cfg : Cfg) (hfix : cfg.tailSplit = false) (host t0host : Bytes) (strm : Nat)
+    (readRc : Bool) {sizeMeta : Nat} (hg : growthOk sizeMeta = true) {b0 : PBuf}
+    (hb0 : mkFifoBuf sizeMeta = some b0) (script : List Bytes)
+    (hdom : Spec.Dom05 (markerOf readRc) script.flatten = true) (ht : Spec.tail script.flatten ≠ []) :
+    ((runStream fifoOps cfg host t0host strm readRc b0 script).ems.map Em.bytes).drop
+        (Spec.lines script.flatten).length =
+      (pfx cfg host ++ (Spec.tail script.flatten).take (Gen.RELAY_TAILBUF - 1)) ::
+        cutEvery (Gen.RELAY_TAILBUF - 1) (Spec.tail script.flatten).length
+          ((Spec.tail script.flatten).drop (Gen.RELAY_TAILBUF - 1)) := by
+  obtain ⟨_, h2⟩ := line_records_atomic cfg host t0host strm readRc hg hb0 script hdom
+  have h0 : ∀ b ∈ Spec.tail script.flatten, b ≠ 0 := fun b hb => dom_noNul hdom b (mem_of_mem_rest hb)
+  rw [h2]
+  exact tailEms_exact cfg host strm hfix _ _ h0 ht
+
+/-- ... the fragment is ONE record (label and all its bytes in one stdio call) if and only if it is at most
+    T-1 bytes long -- in particular whenever it is shorter than 8 KiB (T >= 8192) -- and a fragment of T-1+k bytes
+    (k > 0) is one labelled record of T-1 bytes followed by unlabelled pieces: between those pieces another
+    host's record can land (nothing the property forbids: its clause ends at 8 KiB). -/
+theorem final_fragment_whole_iff (cfg : Cfg) (hfix : cfg.tailSplit = false) (host t0host : Bytes) (strm : Nat)
+    (readRc : Bool) {sizeMeta : Nat} (hg : growthOk sizeMeta = true) {b0 : PBuf}
+    (hb0 : mkFifoBuf sizeMeta = some b0) (script : List Bytes)
+    (hdom : Spec.Dom05 (markerOf readRc) script.flatten = true) (ht : Spec.tail script.flatten ≠ []) :
+    ((((runStream fifoOps cfg host t0host strm readRc b0 script).ems.map Em.bytes).drop
+        (Spec.lines script.flatten).length).length = 1 ↔
+      (Spec.tail script.flatten).length ≤ Gen.RELAY_TAILBUF - 1) ∧
+    ((Spec.tail script.flatten).length < 8192 → (Spec.tail script.flatten).length ≤ Gen.RELAY_TAILBUF - 1) := by
+  rw [final_fragment_cut_exactly cfg hfix host t0host strm readRc hg hb0 script hdom ht]
+  refine ⟨?_, fun h => by have := tail_piece_covers_8KiB; simp only [Spec.wholeTailBelow] at this; omega⟩
+  simp only [List.length_cons]
+  by_cases hd : (Spec.tail script.flatten).drop (Gen.RELAY_TAILBUF - 1) = []
+  · have hle : (Spec.tail script.flatten).length ≤ Gen.RELAY_TAILBUF - 1 := by simpa using hd
+    have hl : 0 < (Spec.tail script.flatten).length := List.length_pos_iff.mpr ht
+    have : cutEvery (Gen.RELAY_TAILBUF - 1) (Spec.tail script.flatten).length
+        ((Spec.tail script.flatten).drop (Gen.RELAY_TAILBUF - 1)) = [] := by
+      rw [hd]
+      cases (Spec.tail script.flatten).length <;> simp [cutEvery]
+    simp [this, hle]
+  · have hgt : ¬ (Spec.tail script.flatten).length ≤ Gen.RELAY_TAILBUF - 1 := by
+      intro h; apply hd; simpa using h
+    have hl : 0 < (Spec.tail script.flatten).length := List.length_pos_iff.mpr ht
+    obtain ⟨f, hf⟩ : ∃ f, (Spec.tail script.flatten).length = f + 1 := ⟨_, (Nat.succ_pred_eq_of_pos hl).symm⟩
+    rw [hf]
+    simp [cutEvery, hd]
+    omega
 
 /-- `tail_split_is_the_defect` (D6, the code as it stands): with labels on, EVERY stream that
     ends in an unterminated fragment is written with the label as a stdio call of its own,
     followed by the fragment's bytes by further calls -- the specification's `tailSplitForm` --
     and hence is not a sequence of whole records (`c06Ok` fails). -/
 theorem tail_split_is_the_defect (cfg : Cfg) (hsplit : cfg.tailSplit = true) (hlab : cfg.labels = true)
-    (host t0host : Bytes) (strm : Nat) (readRc : Bool) {sizeMeta : Nat} (hm1 : 1 ≤ sizeMeta)
-    (hm2 : sizeMeta ≤ 800) {b0 : PBuf} (hb0 : mkFifoBuf sizeMeta = some b0) (script : List Bytes)
+    (host t0host : Bytes) (strm : Nat) (readRc : Bool) {sizeMeta : Nat} (hg : growthOk sizeMeta = true) {b0 : PBuf} (hb0 : mkFifoBuf sizeMeta = some b0) (script : List Bytes)
     (hdom : Spec.Dom05 (markerOf readRc) script.flatten = true) (htail : Spec.tail script.flatten ≠ []) :
     Spec.tailSplitForm (pfx cfg host) script.flatten
       ((runStream fifoOps cfg host t0host strm readRc b0 script).ems.map Em.bytes) = true ∧
     Spec.c06Ok (pfx cfg host) script.flatten
       ((runStream fifoOps cfg host t0host strm readRc b0 script).ems.map Em.bytes) = false := by
-  obtain ⟨h1, h2⟩ := line_records_atomic cfg host t0host strm readRc hm1 hm2 hb0 script hdom
+  obtain ⟨h1, h2⟩ := line_records_atomic cfg host t0host strm readRc hg hb0 script hdom
   have h0 : ∀ b ∈ Spec.tail script.flatten, b ≠ 0 := fun b hb => dom_noNul hdom b (mem_of_mem_rest hb)
   obtain ⟨d, rest, he, hok⟩ :=
-    tailEms_split cfg host strm hsplit hlab _ (Spec.tail script.flatten) (Nat.lt_succ_self _) h0 htail
+    tailEms_split cfg host strm tail_piece_covers_8KiB hsplit hlab _ (Spec.tail script.flatten) (Nat.lt_succ_self _) h0 htail
   have hp : pfx cfg host ≠ [] := by simp [pfx, labelPrefix, hlab, sep]
   have hte : (Spec.tail script.flatten).isEmpty = false := by simpa using htail
   have hpe : (pfx cfg host).isEmpty = false := by simpa using hp
@@ -132,13 +213,13 @@ theorem tail_split_witness : ∀ b0, mkFifoBuf 1 = some b0 →
     line survives `_do_output`, so that call never emits -- the whole run is independent of
     which host's thd_t it is given. -/
 theorem flush_lines_in_flush_output_noop (cfg : Cfg) (host t0host t0host' : Bytes) (strm : Nat) (readRc : Bool)
-    {sizeMeta : Nat} (hm1 : 1 ≤ sizeMeta) (hm2 : sizeMeta ≤ 800) {b0 : PBuf}
+    {sizeMeta : Nat} (hg : growthOk sizeMeta = true) {b0 : PBuf}
     (hb0 : mkFifoBuf sizeMeta = some b0) (script : List Bytes)
     (hdom : Spec.Dom05 (markerOf readRc) script.flatten = true) :
     (runStream fifoOps cfg host t0host strm readRc b0 script).ems =
       (runStream fifoOps cfg host t0host' strm readRc b0 script).ems := by
-  obtain ⟨h1, _⟩ := runStream_closed cfg host strm readRc t0host hm1 hm2 hb0 script hdom
-  obtain ⟨h2, _⟩ := runStream_closed cfg host strm readRc t0host' hm1 hm2 hb0 script hdom
+  obtain ⟨h1, _⟩ := runStream_closed cfg host strm readRc t0host hg hb0 script hdom
+  obtain ⟨h2, _⟩ := runStream_closed cfg host strm readRc t0host' hg hb0 script hdom
   rw [h1, h2]
 
 /-- everything together for one host of a target list, in the property's own terms: with the
@@ -146,14 +227,14 @@ theorem flush_lines_in_flush_output_noop (cfg : Cfg) (host t0host t0host' : Byte
     the property's label for that host -/
 theorem records_carry_own_label (labels optK : Bool) (targets : List Bytes) (host t0host : Bytes)
     (hn : NameOk host) (ht : ∀ t ∈ targets, ∀ b ∈ t, b ≠ 0) (strm : Nat) (readRc : Bool)
-    {sizeMeta : Nat} (hm1 : 1 ≤ sizeMeta) (hm2 : sizeMeta ≤ 800) {b0 : PBuf}
+    {sizeMeta : Nat} (hg : growthOk sizeMeta = true) {b0 : PBuf}
     (hb0 : mkFifoBuf sizeMeta = some b0) (script : List Bytes)
     (hdom : Spec.Dom05 (markerOf readRc) script.flatten = true) :
     Spec.c06Ok (Spec.recPrefix labels optK targets host) script.flatten
       ((runStream fifoOps ⟨labels, keepDomain optK targets, false, false, false⟩ host t0host strm readRc b0 script).ems.map
         Em.bytes) = true := by
   have h := records_atomic_partial ⟨labels, keepDomain optK targets, false, false, false⟩ rfl host t0host strm readRc
-    hm1 hm2 hb0 script hdom
+    hg hb0 script hdom
   simp only [pfx] at h
   rw [label_correct labels optK targets host hn ht] at h
   exact h
@@ -166,7 +247,7 @@ theorem records_carry_own_label (labels optK : Bool) (targets : List Bytes) (hos
     last.  With one stdio call = one atomic write, the output of every schedule therefore is a
     concatenation of whole records, no byte of one host's record inside another's. -/
 theorem records_atomic_any_schedule (cfg : Cfg) (hfix : cfg.tailSplit = false) (names : Nat → Bytes)
-    {sizeMeta : Nat} (hm1 : 1 ≤ sizeMeta) (hm2 : sizeMeta ≤ 800) {b0 : PBuf}
+    {sizeMeta : Nat} (hg : growthOk sizeMeta = true) {b0 : PBuf}
     (hb0 : mkFifoBuf sizeMeta = some b0) (evs : List (Key × LEv)) :
     LogOk (evs.foldl (gstep fifoOps cfg names) (ginit b0)) ∧
     ∀ (k : Key) (script : List Bytes),
@@ -177,24 +258,24 @@ theorem records_atomic_any_schedule (cfg : Cfg) (hfix : cfg.tailSplit = false) (
   refine ⟨log_is_shuffle fifoOps cfg names evs (ginit b0) (by intro k; simp [logOf, ginit]), ?_⟩
   intro k script hk hdom
   rw [global_stream_is_runStream fifoOps cfg names b0 evs k script hk]
-  exact records_atomic_partial cfg hfix (names k.1) (names 0) (strmNo k) (!k.2) hm1 hm2 hb0 script hdom
+  exact records_atomic_partial cfg hfix (names k.1) (names 0) (strmNo k) (!k.2) hg hb0 script hdom
 
 /-- the same for the INDEX-LEVEL relay (the instance run against the real cbuf.c),
     unconditionally: it simulates the FIFO+policy instance (`Relay.idx_sim`) -/
 theorem records_atomic_partial_index (cfg : Cfg) (hfix : cfg.tailSplit = false) (host t0host : Bytes)
-    (strm : Nat) (readRc : Bool) {sizeMeta : Nat} (hm1 : 1 ≤ sizeMeta) (hm2 : sizeMeta ≤ 800)
+    (strm : Nat) (readRc : Bool) {sizeMeta : Nat} (hg : growthOk sizeMeta = true)
     {a0 : Cbuf.Cbuf} (ha0 : mkIndexBuf sizeMeta = some a0) (script : List Bytes)
     (hdom : Spec.Dom05 (markerOf readRc) script.flatten = true) :
     Spec.c06Ok (pfx cfg host) script.flatten
       ((runStream indexOps cfg host t0host strm readRc a0 script).ems.map Em.bytes) = true := by
   obtain ⟨b0, hb0⟩ := mkFifoBuf_some sizeMeta
-  rw [(runStream_index_eq_fifo cfg host t0host strm readRc (by omega) ha0 hb0 script).1]
-  exact records_atomic_partial cfg hfix host t0host strm readRc hm1 hm2 hb0 script hdom
+  rw [(runStream_index_eq_fifo cfg host t0host strm readRc (growthOk_pos hg) ha0 hb0 script).1]
+  exact records_atomic_partial cfg hfix host t0host strm readRc hg hb0 script hdom
 
 /-- index-level relay, many hosts, every schedule: the global sequence of stdio calls is a
     shuffle of the per-stream sequences, each consisting of whole records of its host -/
 theorem records_atomic_index_any_schedule (cfg : Cfg) (hfix : cfg.tailSplit = false) (names : Nat → Bytes)
-    {sizeMeta : Nat} (hm1 : 1 ≤ sizeMeta) (hm2 : sizeMeta ≤ 800) {a0 : Cbuf.Cbuf}
+    {sizeMeta : Nat} (hg : growthOk sizeMeta = true) {a0 : Cbuf.Cbuf}
     (ha0 : mkIndexBuf sizeMeta = some a0) (evs : List (Key × LEv)) :
     LogOk (evs.foldl (gstep indexOps cfg names) (ginit a0)) ∧
     ∀ (k : Key) (script : List Bytes),
@@ -205,7 +286,7 @@ theorem records_atomic_index_any_schedule (cfg : Cfg) (hfix : cfg.tailSplit = fa
   refine ⟨log_is_shuffle indexOps cfg names evs (ginit a0) (by intro k; simp [logOf, ginit]), ?_⟩
   intro k script hk hdom
   rw [global_stream_is_runStream indexOps cfg names a0 evs k script hk]
-  exact records_atomic_partial_index cfg hfix (names k.1) (names 0) (strmNo k) (!k.2) hm1 hm2 ha0 script hdom
+  exact records_atomic_partial_index cfg hfix (names k.1) (names 0) (strmNo k) (!k.2) hg ha0 script hdom
 
 /-- C06 IN THE PROPERTY'S OWN TERMS, TOP LEVEL: a run of pdsh on the target list `targets` with
     options -N / -K as given (`labels`, `optK`), the domain flag computed as dsh() does, index-level
@@ -216,7 +297,7 @@ theorem records_atomic_index_any_schedule (cfg : Cfg) (hfix : cfg.tailSplit = fa
     `targets[i]` (own name; shortened at the first dot only if it does not start with a digit, no
     -K, and the targets do not span domains).  (`rs`, `re`: the two C08 switches, irrelevant here.) -/
 theorem records_own_label_any_schedule (labels optK rs re : Bool) (targets : List Bytes)
-    (hn : ∀ t ∈ targets, NameOk t) {sizeMeta : Nat} (hm1 : 1 ≤ sizeMeta) (hm2 : sizeMeta ≤ 800)
+    (hn : ∀ t ∈ targets, NameOk t) {sizeMeta : Nat} (hg : growthOk sizeMeta = true)
     {a0 : Cbuf.Cbuf} (ha0 : mkIndexBuf sizeMeta = some a0) (evs : List (Key × LEv)) :
     LogOk (evs.foldl (gstep indexOps ⟨labels, keepDomain optK targets, false, rs, re⟩
       (fun i => targets.getD i [])) (ginit a0)) ∧
@@ -227,7 +308,7 @@ theorem records_own_label_any_schedule (labels optK rs re : Bool) (targets : Lis
         ((logOf (evs.foldl (gstep indexOps ⟨labels, keepDomain optK targets, false, rs, re⟩
           (fun i => targets.getD i [])) (ginit a0)) k).map Em.bytes) = true := by
   obtain ⟨h1, h2⟩ := records_atomic_index_any_schedule ⟨labels, keepDomain optK targets, false, rs, re⟩ rfl
-    (fun i => targets.getD i []) hm1 hm2 ha0 evs
+    (fun i => targets.getD i []) hg ha0 evs
   refine ⟨h1, ?_⟩
   intro k script hk hfeed hdom
   have hmem : targets.getD k.1 [] ∈ targets := by
@@ -268,6 +349,49 @@ theorem consumer_sees_relay_calls (mode : Stdio.Mode) (cap : Nat) (ops : List St
   induction ops with
   | nil => rfl
   | cons o os ih => cases o <;> simp [calls, List.filterMap_cons, ih]
+
+/-- FROM THE SCHEDULE OF THE WORKERS TO THE BYTES THE CONSUMER READS -- any number of hosts, any schedule, any
+    stdio buffering.  `evs` = any interleaving of the relay events of all streams of all targets (index-level
+    relay); its global log `G` is the sequence of stdio calls of all workers in the order they were made.
+    `ops` = ANY run of the stdio layer below (Relay/Stdio.lean `IOp`: calls as atomic steps -- the per-call
+    atomicity assumption made explicit -- interleaved with arbitrary write(2)s of arbitrary size from either
+    FILE's buffer) whose calls are exactly `G` (FILE = 1 for out(), 2 for err()).  Then, once pdsh has ended
+    through exit():
+      (a) the consumer of FILE f has received the calls made on f concatenated in the order of `G` -- so on
+          stdout a concatenation of the workers' stdout calls, on stderr of their stderr calls;
+      (b) `G` restricted to one (target, stream) is that stream's own call sequence (`LogOk`), and
+      (c) that sequence consists of whole records `label: line` of THAT target, in order, tail last.
+    Hence pdsh's stdout, and its stderr, each read as a concatenation of whole records, every record under its
+    own host's label, per host in order.  What is NOT claimed: any order between a stdout and a stderr record, and
+    -- when both FILEs are redirected to one descriptor (2>&1) -- that records of the two FILEs do not cut into
+    each other (`Stdio.shared_descriptor_witness`); per FILE (a) still holds for the chunks of that FILE. -/
+theorem records_reach_consumer_any_schedule (labels optK rs re : Bool) (targets : List Relay.Bytes)
+    (hn : ∀ t ∈ targets, NameOk t) {sizeMeta : Nat} (hg : growthOk sizeMeta = true)
+    {a0 : Cbuf.Cbuf} (ha0 : mkIndexBuf sizeMeta = some a0) (evs : List (Key × LEv)) (ops : List Stdio.IOp)
+    (hcalls : Stdio.callSeq ops =
+      (evs.foldl (gstep indexOps ⟨labels, keepDomain optK targets, false, rs, re⟩
+        (fun i => targets.getD i [])) (ginit a0)).log.map (fun x => (x.2.stream, x.2.bytes))) (f : Nat) :
+    Stdio.delivered f (Stdio.iorun ops) ++ (Stdio.iorun ops).bufs f =
+      (((evs.foldl (gstep indexOps ⟨labels, keepDomain optK targets, false, rs, re⟩
+        (fun i => targets.getD i [])) (ginit a0)).log.filter (fun x => x.2.stream = f)).map (·.2.bytes)).flatten ∧
+    LogOk (evs.foldl (gstep indexOps ⟨labels, keepDomain optK targets, false, rs, re⟩
+      (fun i => targets.getD i [])) (ginit a0)) ∧
+    ∀ (k : Key) (script : List Relay.Bytes), k.1 < targets.length →
+      (evs.filter (fun e => e.1 = k)).map (·.2) = script.map LEv.feed ++ [LEv.finish] →
+      Spec.Dom05 (markerOf (!k.2)) script.flatten = true →
+      Spec.c06Ok (Spec.recPrefix labels optK targets (targets.getD k.1 [])) script.flatten
+        ((logOf (evs.foldl (gstep indexOps ⟨labels, keepDomain optK targets, false, rs, re⟩
+          (fun i => targets.getD i [])) (ginit a0)) k).map Em.bytes) = true := by
+  obtain ⟨h1, h2⟩ := records_own_label_any_schedule labels optK rs re targets hn hg ha0 evs
+  refine ⟨?_, h1, h2⟩
+  rw [Stdio.io_consumer_sees_calls, Stdio.callsOn_eq_callSeq, hcalls]
+  congr 1
+  generalize (evs.foldl (gstep indexOps ⟨labels, keepDomain optK targets, false, rs, re⟩
+    (fun i => targets.getD i [])) (ginit a0)).log = G
+  induction G with
+  | nil => rfl
+  | cons x xs ih =>
+    by_cases h : x.2.stream = f <;> simp [h, ih]
 
 open Stdio in
 /-- what fork() copies: in full-buffering mode, as long as the calls made since the last flush fit
